@@ -470,7 +470,7 @@ def _retier(h, tiers):
     return h2
 _c20refs_quick = [_ref("C03", "c03_call_wiring"), _ref("C17", "strategy_value"), _ref("C13", "in_flight_exact_one_call"), _ref("C02", "call_wiring")]
 _c20refs_thorough = [_ref("C01", "one_call_any_availability"), _ref("C11", "dropped_waiter_is_harmless"), _ref("C03", "c03_call_wiring_with_fallback"), _ref("C06", "cancel_fixed_timeout"), _ref("C06", "no_cancel_fixed_timeout"), _ref("C19", "one_request_all_rolls"),
-                     _ref("C05", "plain"), _ref("C16", "custom_policy_predicate_retry"), _ref("C12", "parallel_mode_two_attempts"), _ref("C11", "leader_waiter_and_other_key")]
+                     _ref("C05", "plain"), _ref("C16", "custom_policy_predicate_retry"), _ref("C11", "leader_waiter_and_other_key")]
 PROPS["C20"] = Prop(
     harnesses=_c20new + [_retier(h, ("quick", "thorough")) for h in _c20refs_quick] + [_retier(h, ("thorough",)) for h in _c20refs_thorough],
     functions=["Service::{poll_ready,call} of bulkhead, circuit breaker (+fallback variant), rate limiter, time limiter, retry, fallback, hedge, reconnect, adaptive, coalesce, executor, chaos",
@@ -485,6 +485,10 @@ PROPS["C20"] = Prop(
 # ---------------------------------------------------------------------------
 HOOK_COMMITS = ["b67d6cc440f8922972f92b38f6e06fc0ff45ba61"]
 NOT_APPLICABLE = {
+    "C12": "execute_with_hedging (tokio::spawn per attempt + mpsc + biased select! loop) is out of reach for CBMC beyond the FIRST poll of the call: with the tokio model, "
+           "HedgeDelay::get_delay stubbed by a constant and a fully concrete schedule, every harness that polls the call a second time (7 variants, 2-4 attempts' polls, symbolic "
+           "outcomes only) ran into the 25-50 minute cap at 10-13 GB; first-poll facts alone do not decide the property. The harnesses are kept in harness/tower-resilience-hedge/c12.rs "
+           "(tiers=()); the premature all-attempts-failed defect found by reading was repaired (fix 4c4fb5a) but is not covered by a solver check (DESIGN.md 4/C12, 6)",
     "C10": "decided by the contents of std::collections::HashMap / lru::LruCache (hashbrown SwissTable + SipHash): two inserts with one "
            "symbolic key do not finish in CBMC in 10 minutes and std's map cannot be replaced by a model; a harness avoiding the "
            "containers would verify nothing the statement says (DESIGN.md section 6)",
